@@ -24,11 +24,11 @@ func C01(r *core.Run) {
 	w := &wireCtx{r: r, pk: pk, info: pk.TypesInfo}
 	w.classifyEmitters()
 	encodeDecodeMatrix(r, w)
-	bitSizes(r, "lib/j5reflect", "scalarReflectFromGo") // quoted integers re-parse with the field's own width and signedness
+	bitSizes(r, "lib/j5reflect", "scalarReflectFromGo")                                                                  // quoted integers re-parse with the field's own width and signedness
 	rules.VerbatimCopy(r, codecRel, "appendString", "google.golang.org/protobuf/internal/encoding/json", "appendString") // the escaper is the library's, whose output encoding/json reads back
-	w.ruleW5() // labels and strings are escaped: an unescaped key does not decode to the same key
-	w.ruleW6() // "!type" / "value" constants on both sides
-	w.ruleW2() // date/timestamp/base64 renderings the decoder must be able to re-read
+	w.ruleW5()                                                                                                           // labels and strings are escaped: an unescaped key does not decode to the same key
+	w.ruleW6()                                                                                                           // "!type" / "value" constants on both sides
+	w.ruleW2()                                                                                                           // date/timestamp/base64 renderings the decoder must be able to re-read
 	rules.DispatchOrder(r, codecRel, "encoder.encodeValue", "lib/j5reflect")
 	rules.ConstSwitchCovers(r, codecRel, "decoder.decodeValue", core.Module+"/lib/j5reflect", "PropertyType", nil, 1)
 	rules.TypeSwitchCovers(r, "lib/j5reflect", "property.PropertyType", core.Module+"/lib/j5schema", "FieldSchema", nil, 1)
